@@ -33,7 +33,8 @@ def run(ctx, crate):
     # the rows committed to the erase count are exactly the rows painted: a bar line that did not fit (and was not painted)
     # must not be counted, or the next erase reaches into the text above the region
     D.rule_height_guard(ctx, crate)
-    D.rule_painted_line_terminated(ctx, crate)
+    D.rule_cr_needs_rows(ctx, crate)
+    D.rule_painted_line_terminated(ctx, crate, kinds=("text",))       # (the bar-line half of the obligation is C19's)
     # a finished bar updated under an exhausted limiter stores rows that were never painted; dropping it then makes the
     # next println erase that many log lines (seed C03c)
     D.rule_finished_draws_forced(ctx, crate)
@@ -348,6 +349,25 @@ def rule_row_transfer_pairing(ctx, crate, rule="R-ROW-TRANSFER-PAIRING"):
                               "Clear(zombie_lines_count) includes rows added on this path that are still in last_line_count (owned twice: one row too many is erased above the frame)",
                               cfg)
     ctx.floor(rule, n, 4, cfg, "zombie-row transfer sites (adds + clears)")
+    # (e) the zombie rows are rows of the *current* terminal: whoever replaces MultiState.draw_target starts from zero
+    #     (otherwise the next println/clear erases that many rows of the new terminal that never belonged to the region)
+    n_t = 0
+    for b in K.lib_bodies(crate):
+        if b.kind == "Closure" or K.meth(b.name) in ("new", "with_draw_target"):
+            continue
+        for i, j, s_ in b.assigns():
+            fs = place_fields(s_["lhs"])
+            if not fs or fs[-1][2] != "draw_target" or fs[-1][0] != "multi::MultiState":
+                continue
+            n_t += 1
+            zs = [bb for bb in b.reachable() for st in b.stmts(bb) if st.get("k") == "assign" and place_fields(st["lhs"]) and place_fields(st["lhs"])[-1][2] == ZLC] + \
+                 [c.bb for c in b.calls(r"std::mem::(take|replace)") if b.slice_args(c, [0], through_calls=False).has_field(ZLC)]
+            ok = bool(zs) and (any(b.dominates(z, i) for z in zs) or b.must_pass(b.succ(i) or [i], zs))
+            ctx.check(ok, rule, "target-replaced-resets-zombies:%s" % K.meth(b.name), b.name, "%s:%d" % (b.file, s_.get("line", 0)),
+                      "replacing the MultiProgress draw target resets the zombie row count",
+                      "%s replaces MultiState.draw_target but keeps zombie_lines_count: the rows counted there are on the old terminal; the next println/clear erases "
+                      "that many rows of the new one" % K.meth(b.name), cfg)
+    ctx.floor(rule, n_t, 1, cfg, "functions that replace MultiState.draw_target")
 
 
 def describe_escapes(b, ubb, partners):
